@@ -235,9 +235,9 @@ PROPS['C08'].update({
 
 PROPS['C04'].update({
     'level': 'other',
-    'units': ['pwl_compose', 'pwl_reduce', 'pwl_tree'],
+    'units': ['pwl_compose', 'pwl_reduce', 'pwl_tree', 'pwl_schemas'],
     'technique': 'Verus contracts: every un-pruned transformation under contract (compose::<false,false> / generic_composition_inplace, reduce, apply_func, add_child_node, update_node, from_aff) preserves Tree::wf and the shape invariant aff_shape_ok as part of its postcondition, and its panics are proved unreachable; bounded replay of operation histories (bc histories) for the LP-dependent transformations and the history quantifier',
-    'level_text': ('Mixed. PROVED (Verus, all trees, all arguments satisfying the stated dimension preconditions): compose::<false,false>, reduce, apply_func / apply_func_at_node, AffTree::add_child_node, update_node and from_aff '
+    'level_text': ('Mixed. PROVED (Verus, all trees, all arguments satisfying the stated dimension preconditions): the schema constructors (six activations, argmax, class_characterization: well-formed, one common terminal output dimension), compose::<false,false>, reduce, apply_func / apply_func_at_node, AffTree::add_child_node, update_node and from_aff '
                    'each return a tree with Tree::wf (links mirrored, leaf flag <=> no children, single root, acyclic) and aff_shape_ok (every node function has the tree input dimension, every decision has 1..15 rows with 2^rows <= K), '
                    'and none of their unwrap / assert / index panics is reachable; since each postcondition re-establishes the precondition of the next operation, any history over these operations stays well-formed. '
                    'NOT under contract (depend on the LP solver or on pruning with index reuse): infeasible_elimination, compose::<true,_>, the arithmetic operators, the common output dimension of terminals. '
